@@ -129,6 +129,20 @@ pub fn run(a: &Args) -> i32 {
         let d = dmax.min(2);
         let r = call(&mut g_all, &p, d, None);
         check("generator that served all earlier seeds", s, &p, d, r, tab, &mut calls, &mut counted);
+        // (c') the generator that has just counted the same board for the OTHER colour at the same
+        // depth (a consistent set-up position when nobody is in check and no ep target is pending)
+        {
+            let mut flipped = p.clone();
+            flipped.stm = p.stm.other();
+            if p.ep.is_none() && !p.in_check(p.stm) && flipped.is_consistent() {
+                for d in 0..=dmax.min(if thorough { 2 } else { 1 }) {
+                    let mut g = MoveGenerator::new();
+                    let _ = call(&mut g, &flipped, d, None);
+                    let r = call(&mut g, &p, d, None);
+                    check("generator that just counted the same board for the other colour", s, &p, d, r, tab, &mut calls, &mut counted);
+                }
+            }
+        }
         // (d) pool sizes
         let pd = if thorough { dmax } else { dmax.min(3) };
         for (n, pl) in &pools {
@@ -182,7 +196,7 @@ pub fn run(a: &Args) -> i32 {
     rep.add("positions_counted_by_the_engine", counted);
     rep.add("distinct_counts_observed", outcomes.len() as u64);
     rep.samples = samples;
-    rep.bounds = json!({"seeds": SEEDS.len(), "pool_sizes": [1, 2, 4, 16], "generator_histories": ["brand-new", "served smaller depths of the same seed", "served all earlier seeds"], "depth": "0..per-seed maximum (see samples)"});
+    rep.bounds = json!({"seeds": SEEDS.len(), "pool_sizes": [1, 2, 4, 16], "generator_histories": ["brand-new", "served smaller depths of the same seed", "served all earlier seeds", "just counted the same board for the other colour"], "depth": "0..per-seed maximum (see samples)"});
     rep.rule = "state = (seed, depth, generator history, pool size); every combination listed in bounds is executed on the real count_positions and compared with the reference model's perft sums".to_string();
     rep.assumptions = vec!["reference perft of the model (validated on the published tables)".into(), "deeper trees and other seeds are not covered".into()];
     rep.mandatory = vec!["count_positions_calls".into()];
